@@ -24,6 +24,14 @@ def run(chk):
         leaves, na = an.leaves(ent)
         for i, lf in enumerate(leaves):
             sub = '%s leaf %d' % (ent, i)
+            if lf.kind == 'unanalysable':
+                fn, sp = local_site(prog, lf)
+                n_ok += 1
+                chk.ob('C02.a' if ent.startswith('ctx.') else 'C02.b', sub + ' (unanalysable path)', False,
+                       chk.key(ent, 'C02.a' if ent.startswith('ctx.') else 'C02.b', fn, 'cannot-certify:' + lf.panic[1][:120]),
+                       'cannot certify: a path of %s cannot be analysed, so it is not known whether it accepts without comparing the PEC (%s)' % (ent, lf.panic[1]),
+                       site=sp, detail={'leaf': dump_leaf(lf, prog, na, heap=False), 'call_path': call_path(lf)})
+                continue
             if lf.kind != 'return':
                 # a panic leaf must not have acted either
                 acted = [e for e in lf.effects if e[0] in ('cellwrite', 'outwrite')]
@@ -63,7 +71,7 @@ def run(chk):
                            chk.key(ent, 'C02.c', fn, 'selector-read-before-write'),
                            'the response depends on the selector value left by an earlier packet (cell read before it is written)',
                            site=sp, detail={'leaf': dump_leaf(lf, prog, na)})
-    chk.floor('accepting / acting leaves', n_ok, 60)
+    chk.floor('accepting / acting leaves (plus reported unanalysable paths)', n_ok, 20)
     if chk.tier == 'thorough':
         import pec_params
         pec_params.check_pin(chk)
